@@ -3,6 +3,10 @@ package PKG
 // C06: frame pool and call-stack bookkeeping (pattern C: one step from an arbitrary valid pool state).
 
 import (
+	"go/ast"
+	"unsafe"
+
+	"github.com/cosmos72/gomacro/base"
 	"github.com/cosmos72/gomacro/gls"
 	xr "github.com/cosmos72/gomacro/xreflect"
 )
@@ -213,5 +217,80 @@ func VH_C06_allocateOnOtherGoroutine() {
 	env := newEnv4Func(outer, 1, 1, nil) // ... called on goroutine 9
 	vhAssert(env.Run == run2, "the frame belongs to the goroutine that runs the call")
 	vhAssert(env == own2 && run2.PoolSize == 0 && run1.PoolSize == 1, "it is taken from that goroutine's pool, the creator's pool is untouched")
+	vhReach("end")
+}
+
+// `return e0, e1` in a function with two named results: Go evaluates every result expression before it assigns any
+// result variable, so `return y, x` swaps them and `return x + 1, x` yields the old x as second result.
+// The real Comp.Return compiles the statement (result expressions are harness closures that read the result slots);
+// the emitted statements are then run in order.
+func VH_C06_returnNamedResults() {
+	c := vhComp()
+	var zero int
+	t := vhTypeOf(zero)
+	nested := vhPick("blocks with locals between the return and the function body", 2)
+	b0 := &Bind{Lit: Lit{Type: t}, Desc: IntBind.MakeDescriptor(0), Name: "x"}
+	b1 := &Bind{Lit: Lit{Type: t}, Desc: IntBind.MakeDescriptor(1), Name: "y"}
+	cf := &Comp{CompGlobals: c.CompGlobals}
+	cf.Func = &FuncInfo{Name: "f", Result: []*Bind{b0, b1}, NamedResults: true}
+	cc := cf
+	if nested == 1 {
+		cc = &Comp{CompGlobals: c.CompGlobals, Outer: cf, UpCost: 1}
+	}
+	x, y, d := vhInt("x"), vhInt("y"), vhInt("d")
+	funenv := &Env{Run: &Run{IrGlobals: &IrGlobals{}}}
+	funenv.Ints, funenv.Vals = make([]uint64, 2), make([]xr.Value, 2)
+	*(*int)(unsafe.Pointer(&funenv.Ints[0])) = x
+	*(*int)(unsafe.Pointer(&funenv.Ints[1])) = y
+	env := funenv
+	if nested == 1 {
+		env = &Env{Outer: funenv, Run: funenv.Run}
+		env.Ints, env.Vals = make([]uint64, 1), make([]xr.Value, 1)
+	}
+	readX := func(*Env) int { return *(*int)(unsafe.Pointer(&funenv.Ints[0])) }
+	readY := func(*Env) int { return *(*int)(unsafe.Pointer(&funenv.Ints[1])) }
+	n0, n1 := &ast.Ident{Name: "e0"}, &ast.Ident{Name: "e1"}
+	shape := vhPick("return y, x / return x + d, x / return y, y + d", 3)
+	var want0, want1 int
+	vhArgExprs = make(map[ast.Expr]*Expr)
+	switch shape {
+	case 0:
+		vhArgExprs[n0], vhArgExprs[n1] = exprFun(t, readY), exprFun(t, readX)
+		want0, want1 = y, x
+	case 1:
+		vhArgExprs[n0], vhArgExprs[n1] = exprFun(t, func(e *Env) int { return readX(e) + d }), exprFun(t, readX)
+		want0, want1 = x+d, x
+	default:
+		vhArgExprs[n0], vhArgExprs[n1] = exprFun(t, readY), exprFun(t, func(e *Env) int { return readY(e) + d })
+		want0, want1 = y, y+d
+	}
+	failed := false
+	func() {
+		defer func() {
+			if recover() != nil {
+				failed = true
+			}
+		}()
+		cc.Return(&ast.ReturnStmt{Results: []ast.Expr{n0, n1}})
+	}()
+	vhAssert(!failed, "compiles")
+	if failed {
+		return
+	}
+	list := cc.Code.List
+	vhAssert(len(list) >= 1, "statements are emitted")
+	if len(list) == 0 {
+		return
+	}
+	sentinel := func(e *Env) (Stmt, *Env) { return nil, e }
+	env.Code = append(append([]Stmt{}, list...), sentinel)
+	env.Run.Interrupt = sentinel
+	env.IP = 0
+	st := list[0]
+	for steps := 0; st != nil && steps < 8; steps++ {
+		st, _ = st(env)
+	}
+	vhAssert(env.Run.Signals.Sync == base.SigReturn, "the return epilogue is reached")
+	vhAssert(readX(nil) == want0 && readY(nil) == want1, "every result expression is evaluated before any result variable is assigned")
 	vhReach("end")
 }
